@@ -618,6 +618,24 @@ func (r *GovParams) HasNegative() bool {
 	return false
 }
 
+// HasStakeOverMaxPower reports whether a minimum stake amount corresponds to more voting power than `MaxTotalPower()`.
+// Such an amount can not be converted by `AmountToPower` and no stake could ever reach it.
+func (r *GovParams) HasStakeOverMaxPower() bool {
+	r.mtx.RLock()
+	defer r.mtx.RUnlock()
+
+	for _, v := range []*uint256.Int{r.minValidatorStake, r.minDelegatorStake} {
+		if v == nil {
+			continue
+		}
+		q := new(uint256.Int).Div(v, amountPerPower)
+		if !q.IsUint64() || q.Uint64() > uint64(MaxTotalPower()) {
+			return true
+		}
+	}
+	return false
+}
+
 // utility methods
 func MaxTotalPower() int64 {
 	return tmtypes.MaxTotalVotingPower
